@@ -8,6 +8,7 @@ import (
 	"context"
 	"errors"
 	"fmt"
+	"os"
 	gopath "path"
 	"path/filepath"
 	"strconv"
@@ -160,8 +161,30 @@ func gen(r *vh.Rand, tier string, n int, emit func(vh.Case)) {
 				a := randRoot(r)
 				c.Ops = append(c.Ops, vh.Pick(r, []string{"rel ", "join ", "rel "})+h(a)+" "+h(randFull(r, a)))
 			case 3:
-				a := randStr(r, "/.a", 6)
-				c.Ops = append(c.Ops, "put 1 0 "+h(a)+" "+h(a+randStr(r, "/.a", 8)))
+				if r.Bool() {
+					a := randStr(r, "/.a", 6)
+					c.Ops = append(c.Ops, "put 1 0 "+h(a)+" "+h(a+randStr(r, "/.a", 8)))
+					break
+				}
+				// a real directory tree with a symbolic link below the root (see sandbox())
+				rr := vh.Pick(r, []string{"/root", "/root", "/root/", "/root/in", "/root/link", "/root/./", "/outside"})
+				ff := vh.Pick(r, []string{"/root/in/f", "/root/f", "/root/link/secret", "/root/link", "/root-sibling/f", "/root/../outside/secret",
+					"/root/in/../f", "/root/in", "/root/nothing", "/outside/secret", "/root/link/../f", "/root//in/./f"})
+				c.Ops = append(c.Ops, "fsput "+h(rr)+" "+h(ff))
+			case 9:
+				var fs []string
+				for k, kk := 0, r.Range(0, 4); k < kk; k++ {
+					fs = append(fs, h(randFull(r, root)))
+				}
+				l := "="
+				if len(fs) > 0 {
+					l = strings.Join(fs, ",")
+				}
+				au := "0"
+				if r.Chance(1, 3) {
+					au = "1"
+				}
+				c.Ops = append(c.Ops, "putmany 1 "+au+" "+h(root)+" "+l)
 			default:
 				af, au := "1", "0"
 				if r.Chance(1, 10) {
@@ -301,6 +324,154 @@ func doPut(o *vh.Out, af, au bool, root, full string) {
 	o.Emit("ok %s %s", h(stored), h(abs))
 }
 
+func doPutMany(o *vh.Out, af, au bool, root, list string) {
+	var fulls []string
+	if list != "=" {
+		for _, x := range strings.Split(list, ",") {
+			fulls = append(fulls, string(vh.UnHex(x)))
+		}
+	}
+	fm := filestore.NewFileManager(dssync.MutexWrap(ds.NewMapDatastore()), root)
+	fm.AllowFiles, fm.AllowUrls = af, au
+	ctx := context.Background()
+	var nodes []*posinfo.FilestoreNode
+	for i, full := range fulls {
+		nd := merkledag.NewRawNode([]byte(fmt.Sprintf("c41-many-%d", i)))
+		nodes = append(nodes, &posinfo.FilestoreNode{Node: nd, PosInfo: &posinfo.PosInfo{FullPath: full}})
+	}
+	err := fm.PutMany(ctx, nodes)
+	fs := filestore.NewFilestore(nil, fm, nil)
+	if err != nil {
+		o.Kind("putmany-reject")
+		// all-or-nothing: nothing may be stored, and the first refused reference is the model's index
+		first := -1
+		for i, n := range nodes {
+			if has, _ := fm.Has(ctx, n.Cid()); has {
+				o.Fail("putmany-partial", "block %d stored although PutMany failed", i)
+			}
+			if first < 0 {
+				single := filestore.NewFileManager(dssync.MutexWrap(ds.NewMapDatastore()), root)
+				single.AllowFiles, single.AllowUrls = af, au
+				if single.Put(ctx, n) != nil {
+					first = i
+				}
+			}
+		}
+		o.Emit("reject %d", first)
+		return
+	}
+	o.Kind("putmany-ok")
+	var stored []string
+	for i, n := range nodes {
+		res := filestore.List(ctx, fs, n.Cid())
+		if has, _ := fm.Has(ctx, n.Cid()); !has || res.Status != filestore.StatusOk {
+			o.Fail("putmany-missing", "block %d not stored", i)
+		}
+		if sz, err := fm.GetSize(ctx, n.Cid()); err != nil || sz != len(n.RawData()) {
+			o.Fail("putmany-size", "block %d size %d err %v", i, sz, err)
+		}
+		stored = append(stored, res.FilePath)
+		if !filestore.IsURL(fulls[i]) && !lexicallyInside(root, filepath.Join(root, filepath.FromSlash(res.FilePath))) {
+			o.Fail("outside-root", "PutMany root=%q full=%q stored=%q", root, fulls[i], res.FilePath)
+		}
+	}
+	if len(nodes) > 0 {
+		// DeleteBlock removes the reference
+		if err := fm.DeleteBlock(ctx, nodes[0].Cid()); err != nil {
+			o.Fail("delete", "%v", err)
+		}
+		if has, _ := fm.Has(ctx, nodes[0].Cid()); has {
+			o.Fail("delete", "still present")
+		}
+	}
+	if len(stored) == 0 {
+		o.Emit("ok =")
+		return
+	}
+	hs := make([]string, len(stored))
+	for i, x := range stored {
+		hs[i] = h(x)
+	}
+	o.Emit("ok %s", strings.Join(hs, ","))
+}
+
+// sandbox creates S/root/{in/f,f,link -> ../outside}, S/outside/secret, S/root-sibling/f; every regular
+// file contains its own path relative to S, so what Get returns names the file that was physically read.
+func sandbox() (string, error) {
+	s, err := os.MkdirTemp("", "c41-sandbox-")
+	if err != nil {
+		return "", err
+	}
+	if s, err = filepath.EvalSymlinks(s); err != nil {
+		return "", err
+	}
+	for _, f := range []string{"root/in/f", "root/f", "outside/secret", "root-sibling/f"} {
+		p := filepath.Join(s, f)
+		if err := os.MkdirAll(filepath.Dir(p), 0o755); err != nil {
+			return s, err
+		}
+		if err := os.WriteFile(p, []byte(f), 0o644); err != nil {
+			return s, err
+		}
+	}
+	return s, os.Symlink(filepath.Join(s, "outside"), filepath.Join(s, "root", "link"))
+}
+
+type osReader struct{ *os.File }
+
+func doFsPut(o *vh.Out, rootRel, fullRel string) {
+	s, err := sandbox()
+	if s != "" {
+		defer os.RemoveAll(s)
+	}
+	if err != nil {
+		o.Fail("sandbox", "%v", err)
+		o.Emit("sandbox-error")
+		return
+	}
+	root, full := s+rootRel, s+fullRel
+	data, rerr := os.ReadFile(full)
+	if rerr != nil {
+		data = []byte("unreadable")
+	}
+	fm := filestore.NewFileManager(dssync.MutexWrap(ds.NewMapDatastore()), root)
+	fm.AllowFiles = true
+	var opened []string
+	filestore.VerifSetReaderFactory(fm, func(p string) (filestore.FileReader, error) {
+		opened = append(opened, p)
+		f, err := os.Open(p) // what the default reader factory does
+		if err != nil {
+			return nil, err
+		}
+		return osReader{f}, nil
+	})
+	ctx := context.Background()
+	nd := merkledag.NewRawNode(data)
+	if err := fm.Put(ctx, &posinfo.FilestoreNode{Node: nd, PosInfo: &posinfo.PosInfo{FullPath: full}}); err != nil {
+		o.Kind("fs-reject")
+		o.Emit("reject")
+		return
+	}
+	o.Kind("fs-accept")
+	stored := filestore.List(ctx, filestore.NewFilestore(nil, fm, nil), nd.Cid()).FilePath
+	blk, gerr := fm.Get(ctx, nd.Cid())
+	if len(opened) == 1 && !lexicallyInside(root, opened[0]) {
+		o.Fail("outside-root", "fs root=%q full=%q stored=%q opened=%q", root, full, stored, opened[0])
+	}
+	if gerr != nil || blk == nil {
+		o.Kind("fs-missing")
+		o.Emit("ok %s missing", h(stored))
+		return
+	}
+	// which file was physically read: not a failure of the (lexical) property, reported for the evidence
+	physRoot, _ := filepath.EvalSymlinks(filepath.Clean(root))
+	if physRoot != "" && !lexicallyInside(physRoot, filepath.Join(s, string(blk.RawData()))) {
+		o.Kind("fs-symlink-followed-outside-root")
+	}
+	o.Nontrivial()
+	o.Emit("ok %s %s", h(stored), h(string(blk.RawData())))
+}
+
 func exec(c vh.Case, o *vh.Out) {
 	for _, line := range c.Ops {
 		f := strings.Fields(line)
@@ -331,6 +502,10 @@ func exec(c vh.Case, o *vh.Out) {
 				o.Kind("rel")
 				o.Emit("%s", h(r))
 			}
+		case f[0] == "putmany" && len(f) == 5:
+			doPutMany(o, f[1] == "1", f[2] == "1", string(vh.UnHex(f[3])), f[4])
+		case f[0] == "fsput" && len(f) == 3:
+			doFsPut(o, string(vh.UnHex(f[1])), string(vh.UnHex(f[2])))
 		case f[0] == "put" && len(f) == 5:
 			doPut(o, f[1] == "1", f[2] == "1", string(vh.UnHex(f[3])), string(vh.UnHex(f[4])))
 		default:
